@@ -22,7 +22,8 @@ use std::collections::{BTreeMap, BTreeSet};
 use vibesql_types::verif::{self, site};
 use vibesql_types::SqlValue;
 
-const TABLES: [&str; 3] = ["ta", "tb", "tc"];
+// "xta" ends in "ta": registries keyed by differently qualified names must not confuse the two
+const TABLES: [&str; 4] = ["ta", "tb", "tc", "xta"];
 const COLS: [&str; 7] = ["k", "ca", "cb", "cc", "cd", "ce", "cf"];
 const INDEXES: [&str; 4] = ["ixa", "ixb", "ixc", "ixd"];
 const STRS: [&str; 5] = ["", "a", "b", "ab", "B"];
@@ -193,6 +194,13 @@ impl Ddl {
                 }
             }
         }
+        // both registries list the same B-tree indexes
+        let mut cat_ix: Vec<String> = self.sut.db.catalog.list_all_indexes().iter().filter(|m| matches!(m.index_type, vibesql_catalog::IndexType::BTree)).map(|m| up(&m.name)).collect();
+        cat_ix.sort();
+        cx.eval("c33.index_registry");
+        if cat_ix != live {
+            return Some(("c33.index_registry".into(), format!("the catalog lists indexes {:?}, the storage index registry lists {:?}", cat_ix, live)));
+        }
         // an index the engine dropped on its own (e.g. with its column) is not demanded back
         let gone: Vec<String> = self.idx.keys().filter(|k| !live.contains(k)).cloned().collect();
         for g in gone {
@@ -341,7 +349,13 @@ impl Ddl {
                     self.n_cons += 1;
                     let n = format!("CN{}", self.n_cons % 3);
                     let c = rng.pick(&cols).clone();
-                    let body = match rng.below(3) {
+                    let others: Vec<String> = self.tabs.keys().filter(|o| *o != t).cloned().collect();
+                    let body = match rng.below(4) {
+                        3 if !others.is_empty() => {
+                            // foreign key onto another table's first column (accepted or not: its business)
+                            let o = rng.pick(&others).clone();
+                            format!("FOREIGN KEY ({}) REFERENCES {}(k)", cs(rng, &c.name), cs(rng, &o))
+                        }
                         0 => format!("UNIQUE ({})", cs(rng, &c.name)),
                         1 if c.ty == Ty::Int => format!("CHECK ({} >= 0)", cs(rng, &c.name)),
                         _ => {
